@@ -67,8 +67,8 @@ def explore_parallel(h, fn, stop_at_first=False, budget_s=None):
     e = Engine(solver_timeout_ms=h.solver_timeout_ms, fresh_queries=h.fresh_queries)
     try:
         open_, viol = e.expand(fn, h.expand if NPROC > 1 else 1)
-    except Inconclusive as ex:
-        return {'stats': e.stats.as_dict(), 'found': [], 'exhausted': False, 'err': ('inconclusive', str(ex)), 'samples': [], 'osigs': []}
+    except (Inconclusive, HarnessError) as ex:
+        return {'stats': e.stats.as_dict(), 'found': [], 'exhausted': False, 'err': ('inconclusive' if isinstance(ex, Inconclusive) else 'harness', str(ex)), 'samples': [], 'osigs': []}
     stats.add(e.stats.as_dict()); samples += e.samples[:2]; osigs |= set(map(str, e.oracle_sigs))
     for p in viol: found.setdefault(_sigkey(p['signature']), p)
     err = None; exhausted = True
